@@ -131,6 +131,15 @@ CLAIMS["C19"] = dict(text="CrossHair + bounded symbolic model checking: (1) Cros
                     "return cliques of the input graph (maximal for grow, same size for swap, inside the subgraph for shrink) and the node chosen obeys "
                     "the documented rule: extremal degree, and -- decided by the solver under the path condition -- extremal weight among the candidates",
                     design_ref="5/C19", note=NOTE + "; graphs are bounded to 4 nodes; subgraph.search/resize and the hafnian-based probabilities are outside the claim")
+CLAIMS["C20"] = dict(text="bounded symbolic model checking of the real train/qchem code with an exact symbolic differentiator (symx/diff.py): "
+                    "ExpFeatures/Exp.jacobian == d weights/d theta (symbolic features and theta, n<=3); in photon-number-resolving mode "
+                    "Stochastic._gradient_one_sample == d h_reparametrized/d theta for each sample and Stochastic.grad == d Stochastic.evaluate/d theta on a "
+                    "pre-loaded sample set, for ARBITRARY real symmetric A_init, theta and cost values (N<=2 modes; this is the differential form of the "
+                    "normalisation d log Z/d log w_k = <n_k>); mean_photons_by_mode / n_mean == diag((1-A^2)^-1)-1 and A_to_cov symmetric, pure, with "
+                    "vacuum probability sqrt(det(1-O)); mean_clicks_by_mode == 1 - vacuum probability of the reduced one-mode state; "
+                    "dynamics.TimeEvolution conserves every mode's photon number and implements the documented phase on an arbitrary Gaussian state "
+                    "(n<=2; thorough n<=3)", design_ref="5/C20",
+                    note=NOTE + "; partial claim: KL (hafnian/torontonian probabilities), vibronic gbs_params/duschinsky (SVD), similarity exact probabilities and samplers are outside (listed in evidence)")
 NA_DEFAULT = "check not built yet in this session (plan: DESIGN.md section 5)"
 NA = {}
 
